@@ -67,6 +67,7 @@ type trSig struct {
 	version int
 	ctx     []byte
 	hmac    bool
+	params  map[string]any // hash_algorithm, marshaling_algorithm, signature_algorithm as sent when signing
 }
 
 func b64(b []byte) string { return base64.StdEncoding.EncodeToString(b) }
@@ -286,11 +287,20 @@ func runC17(rc *RunCtx) {
 			op = f.op
 		}
 		if len(keys) == 0 || (op == 0 && len(keys) < 3 && fz == nil) {
-			typ := []string{"aes256-gcm96", "aes128-gcm96", "chacha20-poly1305", "ed25519", "ecdsa-p256", "hmac", "aes256-gcm96"}[tp.Pick(7)]
+			// "for every key type": the symmetric and elliptic types are drawn
+			// evenly, rsa-2048 rarely (a key pair costs ~0.1-0.3 s per version)
+			typ := []string{"aes256-gcm96", "aes128-gcm96", "chacha20-poly1305", "ed25519", "ecdsa-p256", "hmac", "aes256-gcm96",
+				"xchacha20-poly1305", "ecdsa-p384", "ecdsa-p521", "ed25519", "xchacha20-poly1305"}[tp.Pick(12)]
+			if tp.Pick(24) == 0 {
+				typ = "rsa-2048"
+				s.Probe("rsa_key")
+			}
 			k := &trKey{name: fmt.Sprintf("k%d", len(keys)), typ: typ, latest: 1, minDec: 1, minEnc: 0}
 			data := map[string]any{"type": typ, "allow_plaintext_backup": true, "exportable": true}
 			switch typ {
-			case "aes256-gcm96", "aes128-gcm96", "chacha20-poly1305":
+			case "rsa-2048":
+				k.canEncrypt, k.canSign, k.canHMAC = true, true, true
+			case "aes256-gcm96", "aes128-gcm96", "chacha20-poly1305", "xchacha20-poly1305":
 				k.canEncrypt, k.canHMAC, k.aad = true, true, true
 				if tp.Pick(3) == 0 {
 					k.derived = true
@@ -300,8 +310,12 @@ func runC17(rc *RunCtx) {
 						data["convergent_encryption"] = true
 					}
 				}
-			case "ed25519", "ecdsa-p256":
+			case "ed25519", "ecdsa-p256", "ecdsa-p384", "ecdsa-p521":
 				k.canSign, k.canHMAC = true, true
+				if typ == "ed25519" && tp.Pick(3) == 0 { // signing with a derived key: the context is a signature parameter
+					k.derived = true
+					data["derived"] = true
+				}
 			case "hmac":
 				k.canHMAC = true
 			}
@@ -735,31 +749,85 @@ func runC17(rc *RunCtx) {
 			if !crashChecked && !crashCheck("trim", from, k, k.minDec, oldAvail) {
 				return
 			}
-		case op == 11 && (k.canSign || k.canHMAC): // sign / hmac
+		case op == 11 && (k.canSign || k.canHMAC): // sign / hmac, with drawn parameters
 			input := newPT()
 			useHMAC := !k.canSign || tp.Pick(2) == 0
 			path := "transit/sign/" + k.name
 			field := "signature"
+			sg := &trSig{key: k, input: input, hmac: useHMAC, params: map[string]any{}}
+			data := map[string]any{"input": b64(input)}
+			if alg := []string{"", "", "sha2-256", "sha2-384", "sha2-512", "sha3-256"}[tp.Pick(6)]; alg != "" {
+				sg.params["hash_algorithm"] = alg
+				if useHMAC {
+					data["algorithm"] = alg
+				} else {
+					data["hash_algorithm"] = alg
+				}
+			}
 			if useHMAC {
 				path, field = "transit/hmac/"+k.name, "hmac"
+			} else {
+				if strings.HasPrefix(k.typ, "ecdsa") && tp.Pick(3) == 0 {
+					sg.params["marshaling_algorithm"] = "jws"
+				}
+				if k.typ == "rsa-2048" && tp.Pick(2) == 0 {
+					sg.params["signature_algorithm"] = "pkcs1v15"
+				}
+				if k.derived {
+					sg.ctx = []byte(fmt.Sprintf("ctx-%d", tp.Pick(3)))
+					data["context"] = b64(sg.ctx)
+				}
+				for _, f := range []string{"marshaling_algorithm", "signature_algorithm"} {
+					if v, ok := sg.params[f]; ok {
+						data[f] = v
+					}
+				}
 			}
-			resp, err, _ := do(Req{Op: logical.UpdateOperation, Path: path, Token: h.Root, Data: map[string]any{"input": b64(input)}}, 0)
+			reqVer := 0
+			if lo := max(1, k.minEnc, k.minAvail); tp.Pick(3) == 0 && lo <= k.latest {
+				reqVer = lo + tp.Pick(k.latest-lo+1)
+				data["key_version"] = reqVer
+			}
+			resp, err, _ := do(Req{Op: logical.UpdateOperation, Path: path, Token: h.Root, Data: data}, 0)
 			if err != nil {
-				note("%s %s -> %v", field, k.name, err)
+				note("%s %s %v reqv=%d -> %v", field, k.name, sg.params, reqVer, err)
+				s.Probe("sign_refused")
 				continue
 			}
-			sg := &trSig{key: k, input: input, sig: fmt.Sprint(resp.Data[field]), hmac: useHMAC}
+			sg.sig = fmt.Sprint(resp.Data[field])
 			sg.version = ctVersion(sg.sig)
 			sigs = append(sigs, sg)
-			note("%s %s -> v%d", field, k.name, sg.version)
-		case op == 12 && len(sigs) > 0: // verify, genuine and tampered
+			note("%s %s %v reqv=%d -> v%d", field, k.name, sg.params, reqVer, sg.version)
+			if want := map[bool]int{true: reqVer, false: k.latest}[reqVer > 0]; sg.version != want {
+				viol("sign-wrong-version", map[string]any{"hmac": useHMAC, "key_type": k.typ}, "%s with %s used version %d, expected %d (latest %d, requested %d)", field, k.name, sg.version, want, k.latest, reqVer)
+				return
+			}
+			if k.minEnc > 0 && sg.version < k.minEnc {
+				viol("sign-below-min-encryption-version", map[string]any{"hmac": useHMAC, "key_type": k.typ}, "%s with %s used version %d below min_encryption_version %d", field, k.name, sg.version, k.minEnc)
+				return
+			}
+		case op == 12 && len(sigs) > 0: // verify, genuine and tampered (message, bytes, version, parameters)
 			sg := sigs[tp.Pick(len(sigs))]
 			field := "signature"
 			if sg.hmac {
 				field = "hmac"
 			}
-			verify := func(input []byte, sig string) (bool, error) {
-				resp, err := h.Do("verify", Req{Op: logical.UpdateOperation, Path: "transit/verify/" + sg.key.name, Token: h.Root, Data: map[string]any{"input": b64(input), field: sig}})
+			verify := func(input []byte, sig string, override map[string]any) (bool, error) {
+				data := map[string]any{"input": b64(input), field: sig}
+				for f, v := range sg.params {
+					data[f] = v
+				}
+				if sg.ctx != nil {
+					data["context"] = b64(sg.ctx)
+				}
+				for f, v := range override {
+					if v == nil {
+						delete(data, f)
+					} else {
+						data[f] = v
+					}
+				}
+				resp, err := h.Do("verify", Req{Op: logical.UpdateOperation, Path: "transit/verify/" + sg.key.name, Token: h.Root, Data: data})
 				if err == nil && resp != nil && resp.IsError() {
 					err = resp.Error()
 				}
@@ -769,28 +837,72 @@ func runC17(rc *RunCtx) {
 				v, _ := resp.Data["valid"].(bool)
 				return v, nil
 			}
-			ok, err := verify(sg.input, sg.sig)
+			vsig := func(corruption string) map[string]any {
+				return map[string]any{"hmac": sg.hmac, "corruption": corruption, "key_type": sg.key.typ}
+			}
+			ok, err := verify(sg.input, sg.sig, nil)
 			want := sg.version >= sg.key.minDec && sg.version >= sg.key.minAvail
 			if want && (!ok || err != nil) {
-				viol("valid-signature-rejected", map[string]any{"hmac": sg.hmac, "key_type": sg.key.typ}, "%s v%d of %s over its own input does not verify: %v", field, sg.version, sg.key.name, err)
+				viol("valid-signature-rejected", map[string]any{"hmac": sg.hmac, "key_type": sg.key.typ}, "%s v%d of %s (%v) over its own input does not verify: %v", field, sg.version, sg.key.name, sg.params, err)
 				return
 			}
 			if !want && ok {
 				viol("signature-below-min-version-verified", map[string]any{"hmac": sg.hmac}, "%s v%d of %s verifies although min_decryption_version=%d", field, sg.version, sg.key.name, sg.key.minDec)
 				return
 			}
-			ok, _ = verify(append([]byte("x"), sg.input...), sg.sig)
+			ok, _ = verify(append([]byte("x"), sg.input...), sg.sig, nil)
 			s.Faults["wire-corrupt"]++
 			if ok {
-				viol("tampered-signature-verified", map[string]any{"hmac": sg.hmac, "corruption": "other message"}, "%s of %s verifies for a different message", field, sg.key.name)
+				viol("tampered-signature-verified", vsig("other message"), "%s of %s verifies for a different message", field, sg.key.name)
 				return
 			}
 			parts := strings.SplitN(sg.sig, ":", 3)
 			if raw, err := base64.StdEncoding.DecodeString(parts[2]); err == nil && len(raw) > 0 {
 				raw[tp.Pick(len(raw))] ^= 1 << tp.Pick(8)
-				ok, _ = verify(sg.input, parts[0]+":"+parts[1]+":"+b64(raw))
+				ok, _ = verify(sg.input, parts[0]+":"+parts[1]+":"+b64(raw), nil)
 				if ok {
-					viol("tampered-signature-verified", map[string]any{"hmac": sg.hmac, "corruption": "bit flip"}, "a bit-flipped %s of %s verifies", field, sg.key.name)
+					viol("tampered-signature-verified", vsig("bit flip"), "a bit-flipped %s of %s verifies", field, sg.key.name)
+					return
+				}
+			}
+			// another key version in the prefix: version v's signature must not verify as version w's
+			if ov := 1 + tp.Pick(sg.key.latest); ov != sg.version {
+				s.Faults["wire-corrupt"]++
+				if ok, _ = verify(sg.input, fmt.Sprintf("%s:v%d:%s", parts[0], ov, parts[2]), nil); ok {
+					viol("tampered-signature-verified", vsig("version prefix"), "%s v%d of %s verifies under the prefix v%d", field, sg.version, sg.key.name, ov)
+					return
+				}
+			}
+			// other parameters: another hash (ed25519 does not hash its input), another context, another marshaling / padding
+			if sg.hmac || sg.key.typ != "ed25519" {
+				eff := fmt.Sprint(sg.params["hash_algorithm"])
+				if sg.params["hash_algorithm"] == nil {
+					eff = "sha2-256"
+				}
+				other := []string{"sha2-256", "sha2-384", "sha2-512", "sha3-256"}[tp.Pick(4)]
+				if other != eff {
+					s.Faults["wire-corrupt"]++
+					if ok, _ = verify(sg.input, sg.sig, map[string]any{"hash_algorithm": other}); ok {
+						viol("tampered-signature-verified", vsig("other hash algorithm"), "%s of %s made with %s verifies with hash_algorithm=%s", field, sg.key.name, eff, other)
+						return
+					}
+				}
+			}
+			if sg.ctx != nil {
+				s.Faults["wire-corrupt"]++
+				if ok, _ = verify(sg.input, sg.sig, map[string]any{"context": b64(append([]byte("x"), sg.ctx...))}); ok {
+					viol("tampered-signature-verified", vsig("other context"), "signature of derived key %s verifies under another context", sg.key.name)
+					return
+				}
+			}
+			if !sg.hmac && sg.key.typ == "rsa-2048" {
+				other := "pkcs1v15"
+				if sg.params["signature_algorithm"] != nil {
+					other = "pss"
+				}
+				s.Faults["wire-corrupt"]++
+				if ok, _ = verify(sg.input, sg.sig, map[string]any{"signature_algorithm": other}); ok {
+					viol("tampered-signature-verified", vsig("other signature algorithm"), "rsa signature of %s verifies as %s", sg.key.name, other)
 					return
 				}
 			}
